@@ -75,6 +75,9 @@ impl World for FarmWorld {
         let legit = self.legit(&pre, &info);
         let expected_b = self.expected_boosted(&pre, info.orig);
         let res = self.run_op(text);
+        for h in std::mem::take(&mut self.hits) {
+            if res.ok { tr.count(&h); }
+        }
         let post = self.snap();
         let boosted = if res.ok { self.ledger_update(&info, &pre, &post, &res) } else { BigUint::zero() };
         self.oracles(tr, &info, &pre, &post, &res, &boosted, legit, &expected_b);
